@@ -128,13 +128,13 @@ func runC18(c *Ctx) {
 				sc := p.Index(0, lbl("store:client.ReconnectClient.closed"))
 				ic := p.Index(0, func(ev *Ev) bool { return strings.HasSuffix(ev.Label, ".Close") })
 				rv := p.Index(0, lblPrefix("recv:"))
-				ok := li >= 0 && li < lc && lc < sc && sc < ui && ui < ic && p.Count(lockR) == 1
+				ok := li >= 0 && li < lc && lc < ui && li < sc && sc < ui && ui < ic && p.Count(lockR) == 1
 				if ok {
 					v, isTrue := constBool(p.Trace[sc].Args[1].V)
 					ok = isTrue && v
 				}
 				if hasCancel {
-					ok = ok && cc > lc && cc < ui
+					ok = ok && cc > li && cc < ui
 				} else {
 					ok = ok && cc < 0
 				}
